@@ -548,7 +548,12 @@ func runRender(c J) J {
 	defer rs.cleanup()
 	obs["src"] = bytesJSON(rs.src)
 	obs["text"] = rs.src
-	res := noAddress(rs.src, doRender(rs, jstr(c, "entry")))
+	res := doRender(rs, jstr(c, "entry"))
+	if !jbool(c, "weird") && !jbool(c, "testenv") {
+		// (bindings built from the value universe of the specification: Go structs with pointer fields, which the
+		// fuzzing environments hold, print their fields the way Go does)
+		res = noAddress(rs.src, res)
+	}
 	if d := rs.snaps.firstDiff(); d != "" && res.Outcome == "ok" {
 		res = result{Outcome: "snapdiff", Out: res.Out, Msg: d}
 	}
